@@ -14,8 +14,16 @@ const ALPHA: &[u8] = b"ab\n-";
 #[derive(Clone, PartialEq, Eq, Debug)]
 struct Ev { kind: u8, off: u64, len: usize, ln: u64 } // 1 match, 2 before, 3 after, 4 other, 5 break, 6 finish
 
-struct Rec<'a> { input: &'a [u8], evs: Vec<Ev>, bad_bytes: bool, finished: usize }
+struct Rec<'a> { input: &'a [u8], evs: Vec<Ev>, bad_bytes: bool, finished: usize, refuse_at: usize, stopped: bool, after_stop: usize }
 impl<'a> Rec<'a> {
+    fn new(input: &'a [u8], refuse_at: usize) -> Rec<'a> { Rec { input, evs: vec![], bad_bytes: false, finished: 0, refuse_at, stopped: false, after_stop: 0 } }
+    /// record one delivery; answers `false` (stop) at the chosen event, and counts anything delivered later
+    fn push(&mut self, e: Ev) -> bool {
+        if self.stopped { self.after_stop += 1; }
+        self.evs.push(e);
+        if self.evs.len() - 1 == self.refuse_at { self.stopped = true; return false; }
+        true
+    }
     fn bytes(&mut self, off: u64, b: &[u8]) {
         let o = off as usize;
         if o + b.len() > self.input.len() || &self.input[o..o + b.len()] != b { self.bad_bytes = true; }
@@ -25,21 +33,19 @@ impl<'a> Sink for Rec<'a> {
     type Error = std::io::Error;
     fn matched(&mut self, _s: &Searcher, m: &SinkMatch<'_>) -> Result<bool, std::io::Error> {
         self.bytes(m.absolute_byte_offset(), m.bytes());
-        self.evs.push(Ev { kind: 1, off: m.absolute_byte_offset(), len: m.bytes().len(), ln: m.line_number().unwrap_or(0) });
-        Ok(true)
+        Ok(self.push(Ev { kind: 1, off: m.absolute_byte_offset(), len: m.bytes().len(), ln: m.line_number().unwrap_or(0) }))
     }
     fn context(&mut self, _s: &Searcher, c: &SinkContext<'_>) -> Result<bool, std::io::Error> {
         self.bytes(c.absolute_byte_offset(), c.bytes());
         let k = match c.kind() { SinkContextKind::Before => 2, SinkContextKind::After => 3, SinkContextKind::Other => 4 };
-        self.evs.push(Ev { kind: k, off: c.absolute_byte_offset(), len: c.bytes().len(), ln: c.line_number().unwrap_or(0) });
-        Ok(true)
+        Ok(self.push(Ev { kind: k, off: c.absolute_byte_offset(), len: c.bytes().len(), ln: c.line_number().unwrap_or(0) }))
     }
     fn context_break(&mut self, _s: &Searcher) -> Result<bool, std::io::Error> {
-        self.evs.push(Ev { kind: 5, off: 0, len: 0, ln: 0 });
-        Ok(true)
+        Ok(self.push(Ev { kind: 5, off: 0, len: 0, ln: 0 }))
     }
     fn finish(&mut self, _s: &Searcher, f: &SinkFinish) -> Result<(), std::io::Error> {
         self.finished += 1;
+        if self.stopped { return Ok(()); } // the count reported after a requested stop is not compared
         self.evs.push(Ev { kind: 6, off: f.byte_count(), len: 0, ln: 0 });
         Ok(())
     }
@@ -77,7 +83,7 @@ fn overlapped<M: Matcher>(m: &M, input: &[u8], lines: &[(usize, usize)], resume_
     sel
 }
 
-fn expected(input: &[u8], lines: &[(usize, usize)], sel_in: &[bool], invert: bool, after: usize, before: usize) -> Vec<Ev> {
+fn expected(input: &[u8], lines: &[(usize, usize)], sel_in: &[bool], invert: bool, after: usize, before: usize, passthru: bool) -> Vec<Ev> {
     let n = lines.len();
     let sel: Vec<bool> = sel_in.iter().map(|&b| b != invert).collect();
     let mut out: Vec<Ev> = vec![];
@@ -86,7 +92,7 @@ fn expected(input: &[u8], lines: &[(usize, usize)], sel_in: &[bool], invert: boo
     while i < n {
         let is_before = !sel[i] && (1..=before).any(|d| i + d < n && sel[i + d]);
         let is_after = !sel[i] && (1..=after).any(|d| i >= d && sel[i - d]);
-        if !(sel[i] || is_before || is_after) { i += 1; continue; }
+        if !(sel[i] || is_before || is_after || passthru) { i += 1; continue; }
         if let Some(p) = last { if p + 1 != i && (after > 0 || before > 0) { out.push(Ev { kind: 5, off: 0, len: 0, ln: 0 }); } }
         if sel[i] && !invert {
             // touching line ranges of matches are ONE delivery
@@ -96,7 +102,7 @@ fn expected(input: &[u8], lines: &[(usize, usize)], sel_in: &[bool], invert: boo
             last = Some(j);
             i = j + 1;
         } else {
-            let kind = if sel[i] { 1 } else if is_after { 3 } else { 2 };
+            let kind = if sel[i] { 1 } else if is_after { 3 } else if is_before { 2 } else { 4 };
             out.push(Ev { kind, off: lines[i].0 as u64, len: lines[i].1 - lines[i].0, ln: i as u64 + 1 });
             last = Some(i);
             i += 1;
@@ -116,7 +122,29 @@ impl<'a> std::io::Read for Chunked<'a> {
     }
 }
 
-fn check(pi: usize, input: &[u8], invert: bool, after: usize, before: usize, reader: bool) -> Option<String> {
+fn run(m: &grep_regex::RegexMatcher, input: &[u8], invert: bool, after: usize, before: usize, passthru: bool, strat: usize, refuse_at: usize) -> Result<(Vec<Ev>, bool, usize, usize), String> {
+    let mut searcher = SearcherBuilder::new().line_number(true).multi_line(true).invert_match(invert)
+        .after_context(after).before_context(before).passthru(passthru).build();
+    let mut rec = Rec::new(input, refuse_at);
+    let r = match strat {
+        0 => searcher.search_slice(m, input, &mut rec),
+        1 => searcher.search_reader(m, Chunked { data: input, pos: 0, chunk: 2 }, &mut rec),
+        _ => {
+            // the file strategy (no memory map): the input written to a scratch file of this thread
+            let path = std::env::current_dir().unwrap().join(format!("scratch_{:?}.bin", std::thread::current().id()).replace(['(', ')'], "_"));
+            std::fs::write(&path, input).map_err(|e| e.to_string())?;
+            let r = searcher.search_path(m, &path, &mut rec);
+            let _ = std::fs::remove_file(&path);
+            r
+        }
+    };
+    if r.is_err() { return Err("the search returned an error".into()); }
+    Ok((rec.evs, rec.bad_bytes, rec.finished, rec.after_stop))
+}
+
+const STRATS: [&str; 3] = ["slice", "reader", "file"];
+
+fn check(pi: usize, input: &[u8], invert: bool, after: usize, before: usize, passthru: bool, strat: usize) -> Option<String> {
     let m = RegexMatcherBuilder::new().multi_line(true).build(PATTERNS[pi]).unwrap();
     let lines = lines_of(input);
     let sel = overlapped(&m, input, &lines, false);
@@ -124,13 +152,10 @@ fn check(pi: usize, input: &[u8], invert: bool, after: usize, before: usize, rea
     let known = invert && overlapped(&m, input, &lines, true) != sel;
     let only_known = std::env::var("VERIF_ML_CLASS").map(|v| v == "known").unwrap_or(false);
     if known != only_known { return None; }
-    let want = expected(input, &lines, &sel, invert, after, before);
-    let mut searcher = SearcherBuilder::new().line_number(true).multi_line(true).invert_match(invert)
-        .after_context(after).before_context(before).build();
-    let mut rec = Rec { input, evs: vec![], bad_bytes: false, finished: 0 };
-    let r = if reader { searcher.search_reader(&m, Chunked { data: input, pos: 0, chunk: 2 }, &mut rec) } else { searcher.search_slice(&m, input, &mut rec) };
-    if r.is_err() { return Some("the search returned an error".into()); }
-    if rec.bad_bytes { return Some("a delivered range is not the input's bytes at its offset".into()); }
+    let want = expected(input, &lines, &sel, invert, after, before, passthru);
+    let (evs, bad, finished, _) = match run(&m, input, invert, after, before, passthru, strat, usize::MAX) { Ok(x) => x, Err(e) => return Some(e) };
+    if bad { return Some("a delivered range is not the input's bytes at its offset".into()); }
+    if finished != 1 { return Some(format!("finish was signalled {} times", finished)); }
     // compare line by line: how many adjacent matching lines one `matched` call carries is not part of the
     // property (the line-by-line fallback for patterns that cannot match a terminator delivers them singly)
     let split = |evs: &[Ev]| -> Vec<Ev> {
@@ -147,17 +172,47 @@ fn check(pi: usize, input: &[u8], invert: bool, after: usize, before: usize, rea
         }
         out
     };
-    if split(&rec.evs) != split(&want) {
-        return Some(format!("delivered {:?}, the property demands {:?} (kind 1 match, 2 before, 3 after, 5 separator, 6 finish)", rec.evs, want));
+    if split(&evs) != split(&want) {
+        return Some(format!("delivered {:?}, the property demands {:?} (kind 1 match, 2 before, 3 after, 4 other, 5 separator, 6 finish)", evs, want));
+    }
+    // C16: a sink that answers `false` at event k gets exactly the first k+1 deliveries of the uninterrupted
+    // run, then finish, exactly once, and nothing else (slice strategy; only outside the known class)
+    if strat == 0 && !only_known {
+        for k in 0..evs.len().saturating_sub(1) {
+            let (ek, _, fin, after_stop) = match run(&m, input, invert, after, before, passthru, 0, k) { Ok(x) => x, Err(e) => return Some(e) };
+            if ek[..] != evs[..=k] || fin != 1 || after_stop != 0 {
+                return Some(format!("a sink that stops at event {} was handed {:?} (finish x{}, {} deliveries after the stop); the uninterrupted run delivers {:?}", k, ek, fin, after_stop, evs));
+            }
+        }
+    }
+    None
+}
+
+/// C02/C13 across strategies on inputs that start with a byte-order mark: reader and file strategies deliver
+/// what the slice strategy delivers (no model: the BOM is stripped by all three or by none)
+fn check_bom(pi: usize, tail: &[u8]) -> Option<String> {
+    let m = RegexMatcherBuilder::new().multi_line(true).build(PATTERNS[pi]).unwrap();
+    let mut input = vec![0xEF, 0xBB, 0xBF];
+    input.extend_from_slice(tail);
+    let base = match run(&m, &input, false, 0, 0, false, 0, usize::MAX) { Ok(x) => x.0, Err(e) => return Some(e) };
+    for strat in 1..3 {
+        let evs = match run(&m, &input, false, 0, 0, false, strat, usize::MAX) { Ok(x) => x.0, Err(e) => return Some(e) };
+        if evs != base {
+            return Some(format!("input with a UTF-8 BOM: the {} strategy delivers {:?}, the slice strategy {:?}", STRATS[strat], evs, base));
+        }
     }
     None
 }
 
 fn hex(b: &[u8]) -> String { if b.is_empty() { "-".into() } else { b.iter().map(|x| format!("{:02x}", x)).collect() } }
 fn unhex(h: &str) -> Vec<u8> { if h == "-" { vec![] } else { (0..h.len() / 2).map(|i| u8::from_str_radix(&h[2 * i..2 * i + 2], 16).unwrap()).collect() } }
-fn report(pi: usize, input: &[u8], inv: bool, a: usize, b: usize, rd: bool, w: &str) {
-    println!("FAILING CASE multi-line pattern={:?} input={:?} invert={} after={} before={} reader={}: {}", PATTERNS[pi], String::from_utf8_lossy(input), inv, a, b, rd, w);
-    println!("VERIF_REPLAY_PATTERN={} VERIF_REPLAY_INPUT={} VERIF_REPLAY_INVERT={} VERIF_REPLAY_AFTER={} VERIF_REPLAY_BEFORE={} VERIF_REPLAY_READER={}", pi, hex(input), inv as u8, a, b, rd as u8);
+fn report(pi: usize, input: &[u8], inv: bool, a: usize, b: usize, pt: bool, strat: usize, w: &str) {
+    if strat == 9 {
+        println!("FAILING CASE multi-line/BOM pattern={:?} input=BOM+{:?}: {}", PATTERNS[pi], String::from_utf8_lossy(input), w);
+    } else {
+        println!("FAILING CASE multi-line pattern={:?} input={:?} invert={} after={} before={} passthru={} strategy={}: {}", PATTERNS[pi], String::from_utf8_lossy(input), inv, a, b, pt, STRATS[strat], w);
+    }
+    println!("VERIF_REPLAY_PATTERN={} VERIF_REPLAY_INPUT={} VERIF_REPLAY_INVERT={} VERIF_REPLAY_AFTER={} VERIF_REPLAY_BEFORE={} VERIF_REPLAY_PASSTHRU={} VERIF_REPLAY_STRATEGY={}", pi, hex(input), inv as u8, a, b, pt as u8, strat);
 }
 
 fn main() {
@@ -166,9 +221,10 @@ fn main() {
         let pi: usize = p.parse().unwrap();
         let input = unhex(&g("VERIF_REPLAY_INPUT").unwrap());
         let n = |k: &str| g(k).and_then(|v| v.parse::<usize>().ok()).unwrap_or(0);
-        let (inv, a, b, rd) = (n("VERIF_REPLAY_INVERT") != 0, n("VERIF_REPLAY_AFTER"), n("VERIF_REPLAY_BEFORE"), n("VERIF_REPLAY_READER") != 0);
-        match check(pi, &input, inv, a, b, rd) {
-            Some(w) => { report(pi, &input, inv, a, b, rd, &w); std::process::exit(1); }
+        let (inv, a, b, pt, st) = (n("VERIF_REPLAY_INVERT") != 0, n("VERIF_REPLAY_AFTER"), n("VERIF_REPLAY_BEFORE"), n("VERIF_REPLAY_PASSTHRU") != 0, n("VERIF_REPLAY_STRATEGY"));
+        let res = if st == 9 { check_bom(pi, &input) } else { check(pi, &input, inv, a, b, pt, st) };
+        match res {
+            Some(w) => { report(pi, &input, inv, a, b, pt, st, &w); std::process::exit(1); }
             None => { println!("replayed case agrees"); return; }
         }
     }
@@ -182,9 +238,9 @@ fn main() {
         ins.extend(next.iter().cloned());
         cur = next;
     }
-    eprintln!("multi-line: {} patterns x {} inputs x invert x after 0..1 x before 0..1 x slice/reader", PATTERNS.len(), ins.len());
+    eprintln!("multi-line: {} patterns x {} inputs x invert x (after 0..1 x before 0..1 | passthru) x slice/reader/file, + refusal at every event, + BOM inputs", PATTERNS.len(), ins.len());
     let next = std::sync::atomic::AtomicUsize::new(0);
-    let best: std::sync::Mutex<Option<(usize, usize, String, (bool, usize, usize, bool))>> = std::sync::Mutex::new(None);
+    let best: std::sync::Mutex<Option<(usize, usize, String, (bool, usize, usize, bool, usize))>> = std::sync::Mutex::new(None);
     let threads = std::thread::available_parallelism().map(|x| x.get()).unwrap_or(4).min(16);
     std::thread::scope(|s| {
         for _ in 0..threads {
@@ -192,20 +248,28 @@ fn main() {
                 let pi = next.fetch_add(1, std::sync::atomic::Ordering::SeqCst);
                 if pi >= PATTERNS.len() { break; }
                 'inp: for (ii, inp) in ins.iter().enumerate() {
-                    for inv in [false, true] { for a in 0..2usize { for b in 0..2usize { for rd in [false, true] {
-                        if let Some(w) = check(pi, inp, inv, a, b, rd) {
-                            if survey { println!("ALL pattern={:?} input={:?} inv={} a={} b={} rd={} {}", PATTERNS[pi], String::from_utf8_lossy(inp), inv, a, b, rd, w); continue; }
+                    for inv in [false, true] { for (a, b, pt) in [(0usize, 0usize, false), (1, 0, false), (0, 1, false), (1, 1, false), (0, 0, true)] { for st in 0..3usize {
+                        if let Some(w) = check(pi, inp, inv, a, b, pt, st) {
+                            if survey { println!("ALL pattern={:?} input={:?} inv={} a={} b={} pt={} st={} {}", PATTERNS[pi], String::from_utf8_lossy(inp), inv, a, b, pt, st, w); continue; }
                             let mut bb = best.lock().unwrap();
-                            if bb.as_ref().map_or(true, |o| (pi, ii) < (o.0, o.1)) { *bb = Some((pi, ii, w, (inv, a, b, rd))); }
+                            if bb.as_ref().map_or(true, |o| (pi, ii) < (o.0, o.1)) { *bb = Some((pi, ii, w, (inv, a, b, pt, st))); }
                             break 'inp;
                         }
-                    }}}}
+                    }}}
+                    if inp.len() <= 4 && std::env::var("VERIF_ML_CLASS").is_err() {
+                        if let Some(w) = check_bom(pi, inp) {
+                            if survey { println!("ALL BOM pattern={:?} tail={:?} {}", PATTERNS[pi], String::from_utf8_lossy(inp), w); continue; }
+                            let mut bb = best.lock().unwrap();
+                            if bb.as_ref().map_or(true, |o| (pi, ii) < (o.0, o.1)) { *bb = Some((pi, ii, w, (false, 0, 0, false, 9))); }
+                            break 'inp;
+                        }
+                    }
                 }
             });
         }
     });
     match best.into_inner().unwrap() {
-        Some((pi, ii, w, (inv, a, b, rd))) => { report(pi, &ins[ii], inv, a, b, rd, &w); std::process::exit(1); }
+        Some((pi, ii, w, (inv, a, b, pt, st))) => { report(pi, &ins[ii], inv, a, b, pt, st, &w); std::process::exit(1); }
         None => println!("multi-line twin len<={}: all cases agree", maxlen),
     }
 }
